@@ -873,3 +873,572 @@ impl<'p> RefProgramLocation<'p> {
         /*@wf*/ function.function_wf() ==> (r matches Some(Ok(x)) ==> x.rpl_wf() && Some(x.loc()) == entry_loc(*function)),
 //@ end
 }
+
+// ---------------------------------------------------------------------------------------------
+// Function::locations(): every location exactly once
+
+/// the block a non-edge location lives in
+pub open spec fn loc_block(l: Loc) -> Option<usize> {
+    match l {
+        Loc::Instruction(b, _) => Some(b),
+        Loc::EmptyBlock(b) => Some(b),
+        Loc::Edge(_, _) => None,
+    }
+}
+
+/// block index `b` is among the first `n` entries of `bs`
+pub open spec fn block_listed(bs: Seq<&Block>, n: int, b: usize) -> bool {
+    exists|m: int| 0 <= m < n && m < bs.len() && (#[trigger] bs[m]).index == b
+}
+
+/// `l` is a (non-edge) location of `f` inside one of the first `n` blocks of `bs`
+pub open spec fn blocks_sel(f: Function, bs: Seq<&Block>, n: int, l: Loc) -> bool {
+    loc_valid(f, l) && loc_block(l) is Some && block_listed(bs, n, loc_block(l)->0)
+}
+
+/// instruction index `i` is among the first `q` instructions of `b`
+pub open spec fn instr_listed(b: Block, q: int, i: usize) -> bool {
+    exists|p: int| 0 <= p < q && #[trigger] instr_at(b, p, i)
+}
+
+/// `l` is the location of one of the first `q` instructions of block `b`
+pub open spec fn instr_sel(b: Block, q: int, l: Loc) -> bool {
+    match l {
+        Loc::Instruction(k, i) => k == b.index && instr_listed(b, q, i),
+        _ => false,
+    }
+}
+
+/// progress of the block phase of `locations()`: the first `n` blocks are done, plus the first `q`
+/// instructions of block `bs[n]`
+pub open spec fn sel_bq(f: Function, bs: Seq<&Block>, n: int, q: int) -> spec_fn(Loc) -> bool {
+    |l: Loc| blocks_sel(f, bs, n, l) || (0 <= n < bs.len() && instr_sel(*bs[n], q, l))
+}
+
+/// edge (h, t) is among the first `m` entries of `es`
+pub open spec fn edge_listed(es: Seq<&Edge>, m: int, h: usize, t: usize) -> bool {
+    exists|j: int| 0 <= j < m && j < es.len() && (#[trigger] es[j]).head == h && es[j].tail == t
+}
+
+/// progress of the edge phase of `locations()`: every non-edge location, plus the first `m` edges of `es`
+pub open spec fn sel_e(f: Function, es: Seq<&Edge>, m: int) -> spec_fn(Loc) -> bool {
+    |l: Loc| loc_valid(f, l) && (match l {
+        Loc::Edge(h, t) => edge_listed(es, m, h, t),
+        _ => true,
+    })
+}
+
+/// every location of `f`
+pub open spec fn sel_all(f: Function) -> spec_fn(Loc) -> bool {
+    |l: Loc| loc_valid(f, l)
+}
+
+pub proof fn lemma_lists_rfls_ext(v: Seq<RefFunctionLocation>, f: Function, s1: spec_fn(Loc) -> bool, s2: spec_fn(Loc) -> bool)
+    requires lists_rfls(v, f, s1), forall|l: Loc| #![trigger s1(l)] #![trigger s2(l)] s1(l) <==> s2(l),
+    ensures lists_rfls(v, f, s2),
+{
+    assert forall|l: Loc| #[trigger] s2(l) implies exists|i: int| 0 <= i < v.len() && loc_of(#[trigger] v[i]) == l by {
+        assert(s1(l));
+    }
+}
+
+/// appending a location of `f` that is not listed yet
+pub proof fn lemma_lists_rfls_push(v: Seq<RefFunctionLocation>, f: Function, s1: spec_fn(Loc) -> bool, x: RefFunctionLocation, s2: spec_fn(Loc) -> bool)
+    requires
+        lists_rfls(v, f, s1), rfl_in(f, x), !s1(loc_of(x)),
+        forall|l: Loc| #![trigger s1(l)] #![trigger s2(l)] s2(l) <==> (s1(l) || l == loc_of(x)),
+    ensures lists_rfls(v.push(x), f, s2),
+{
+    let w = v.push(x);
+    assert forall|i: int| 0 <= i < w.len() implies rfl_in(f, #[trigger] w[i]) && s2(loc_of(w[i])) by {
+        if i < v.len() { assert(w[i] == v[i]); assert(s1(loc_of(v[i]))); }
+    }
+    assert forall|i: int, j: int| 0 <= i < j < w.len() implies loc_of(#[trigger] w[i]) != loc_of(#[trigger] w[j]) by {
+        assert(w[i] == v[i]);
+        if j < v.len() { assert(w[j] == v[j]); } else { assert(s1(loc_of(v[i]))); }
+    }
+    assert forall|l: Loc| #[trigger] s2(l) implies exists|i: int| 0 <= i < w.len() && loc_of(#[trigger] w[i]) == l by {
+        if s1(l) {
+            let i = choose|i: int| 0 <= i < v.len() && loc_of(#[trigger] v[i]) == l;
+            assert(w[i] == v[i]);
+        } else {
+            assert(loc_of(w[v.len() as int]) == l);
+        }
+    }
+}
+
+/// the block indices of an exact enumeration of the blocks are pairwise distinct: block bs[n] is not among bs[0..n)
+pub proof fn lemma_block_not_listed(f: Function, bs: Seq<&Block>, n: int)
+    requires f.control_flow_graph.graph.lists_vertices(bs, |k: usize| true), 0 <= n < bs.len(),
+    ensures !block_listed(bs, n, bs[n].index), block_of(f, *bs[n]),
+{
+    if block_listed(bs, n, bs[n].index) {
+        let m = choose|m: int| 0 <= m < n && m < bs.len() && (#[trigger] bs[m]).index == bs[n].index;
+        assert(graph::Vertex::index_spec(bs[m]) != graph::Vertex::index_spec(bs[n]));
+    }
+    assert(f.control_flow_graph.graph.vertices@.contains_key(graph::Vertex::index_spec(bs[n])));
+}
+
+/// block phase, empty block: pushing EmptyBlock(bs[n]) finishes block n
+pub proof fn lemma_locs_empty_block(f: Function, bs: Seq<&Block>, n: int, v: Seq<RefFunctionLocation>)
+    requires
+        f.function_wf(), f.control_flow_graph.graph.lists_vertices(bs, |k: usize| true), 0 <= n < bs.len(),
+        lists_rfls(v, f, sel_bq(f, bs, n, 0)), bs[n].instructions@.len() == 0,
+    ensures lists_rfls(v.push(RefFunctionLocation::EmptyBlock(bs[n])), f, sel_bq(f, bs, n + 1, 0)),
+{
+    let x = RefFunctionLocation::EmptyBlock(bs[n]);
+    let s1 = sel_bq(f, bs, n, 0);
+    let s2 = sel_bq(f, bs, n + 1, 0);
+    let k = bs[n].index;
+    lemma_block_not_listed(f, bs, n);
+    assert forall|l: Loc| #![trigger s1(l)] #![trigger s2(l)] s2(l) <==> (s1(l) || l == loc_of(x)) by {
+        lemma_block_listed_step(bs, n, loc_block(l));
+        if l == loc_of(x) { assert(block_listed(bs, n + 1, k)); }
+    }
+    lemma_lists_rfls_push(v, f, s1, x, s2);
+}
+
+/// block_listed(bs, n + 1, b) is block_listed(bs, n, b) or b == bs[n].index; no instruction is listed at q = 0
+pub proof fn lemma_block_listed_step(bs: Seq<&Block>, n: int, ob: Option<usize>)
+    requires 0 <= n < bs.len(),
+    ensures
+        ob matches Some(b) ==> (block_listed(bs, n + 1, b) <==> (block_listed(bs, n, b) || b == bs[n].index)),
+        forall|l: Loc| !instr_sel(*bs[n], 0, l),
+{
+    if ob is Some {
+        let b = ob->0;
+        if block_listed(bs, n + 1, b) {
+            let m = choose|m: int| 0 <= m < n + 1 && m < bs.len() && (#[trigger] bs[m]).index == b;
+            if m < n { assert(block_listed(bs, n, b)); }
+        }
+        if block_listed(bs, n, b) {
+            let m = choose|m: int| 0 <= m < n && m < bs.len() && (#[trigger] bs[m]).index == b;
+            assert(block_listed(bs, n + 1, b));
+        }
+        if b == bs[n].index { assert(bs[n].index == b); assert(block_listed(bs, n + 1, b)); }
+    }
+    assert forall|l: Loc| !instr_sel(*bs[n], 0, l) by {}
+}
+
+/// block phase, instruction q of block n: pushing Instruction(bs[n], bs[n].instructions[q])
+pub proof fn lemma_locs_push_instr(f: Function, bs: Seq<&Block>, n: int, q: int, v: Seq<RefFunctionLocation>, ins: &Instruction)
+    requires
+        f.function_wf(), f.control_flow_graph.graph.lists_vertices(bs, |k: usize| true), 0 <= n < bs.len(),
+        0 <= q < bs[n].instructions@.len(), *ins == bs[n].instructions@[q],
+        lists_rfls(v, f, sel_bq(f, bs, n, q)),
+    ensures lists_rfls(v.push(RefFunctionLocation::Instruction(bs[n], ins)), f, sel_bq(f, bs, n, q + 1)),
+{
+    let blk = *bs[n];
+    let x = RefFunctionLocation::Instruction(bs[n], ins);
+    let s1 = sel_bq(f, bs, n, q);
+    let s2 = sel_bq(f, bs, n, q + 1);
+    let k = blk.index;
+    lemma_block_not_listed(f, bs, n);
+    assert(blk.block_wf());
+    assert(blk.instructions@[q] == *ins);
+    assert(block_holds(blk, *ins));
+    assert(instr_at(blk, q, ins.index));
+    assert forall|l: Loc| #![trigger s1(l)] #![trigger s2(l)] s2(l) <==> (s1(l) || l == loc_of(x)) by {
+        match l {
+            Loc::Instruction(kk, i) => {
+                if kk == k {
+                    if instr_listed(blk, q + 1, i) {
+                        let p = choose|p: int| 0 <= p < q + 1 && #[trigger] instr_at(blk, p, i);
+                        if p < q { assert(instr_listed(blk, q, i)); }
+                    }
+                    if instr_listed(blk, q, i) {
+                        let p = choose|p: int| 0 <= p < q && #[trigger] instr_at(blk, p, i);
+                        assert(instr_listed(blk, q + 1, i));
+                    }
+                    if i == ins.index { assert(instr_listed(blk, q + 1, i)); }
+                }
+            }
+            _ => {}
+        }
+    }
+    assert(!s1(loc_of(x))) by {
+        if instr_listed(blk, q, ins.index) {
+            let p = choose|p: int| 0 <= p < q && #[trigger] instr_at(blk, p, ins.index);
+            assert(blk.instructions@[p].index != blk.instructions@[q].index);
+        }
+    }
+    lemma_lists_rfls_push(v, f, s1, x, s2);
+}
+
+/// block phase, end of a non-empty block: all its instructions listed = the block is done
+pub proof fn lemma_locs_block_done(f: Function, bs: Seq<&Block>, n: int, v: Seq<RefFunctionLocation>)
+    requires
+        f.function_wf(), f.control_flow_graph.graph.lists_vertices(bs, |k: usize| true), 0 <= n < bs.len(),
+        bs[n].instructions@.len() > 0,
+        lists_rfls(v, f, sel_bq(f, bs, n, bs[n].instructions@.len() as int)),
+    ensures lists_rfls(v, f, sel_bq(f, bs, n + 1, 0)),
+{
+    let blk = *bs[n];
+    let len = blk.instructions@.len() as int;
+    let s1 = sel_bq(f, bs, n, len);
+    let s2 = sel_bq(f, bs, n + 1, 0);
+    let k = blk.index;
+    lemma_block_not_listed(f, bs, n);
+    assert forall|l: Loc| #![trigger s1(l)] #![trigger s2(l)] s1(l) <==> s2(l) by {
+        lemma_block_listed_step(bs, n, loc_block(l));
+        if n + 1 < bs.len() { lemma_block_listed_step(bs, n + 1, None); }
+        match l {
+            Loc::Instruction(kk, i) => {
+                if kk == k {
+                    if instr_listed(blk, len, i) {
+                        let p = choose|p: int| 0 <= p < len && #[trigger] instr_at(blk, p, i);
+                        assert(blk.instructions@[p].index == i);
+                        assert(blk.has_instruction(i));
+                    }
+                    if loc_valid(f, l) {
+                        let p = choose|p: int| 0 <= p < blk.instructions@.len() && (#[trigger] blk.instructions@[p]).index == i;
+                        assert(instr_at(blk, p, i));
+                        assert(instr_listed(blk, len, i));
+                    }
+                }
+            }
+            _ => {}
+        }
+    }
+    lemma_lists_rfls_ext(v, f, s1, s2);
+}
+
+/// end of the block phase = start of the edge phase: every non-edge location is listed
+pub proof fn lemma_locs_blocks_done(f: Function, bs: Seq<&Block>, v: Seq<RefFunctionLocation>)
+    requires
+        f.function_wf(), f.control_flow_graph.graph.lists_vertices(bs, |k: usize| true),
+        lists_rfls(v, f, sel_bq(f, bs, bs.len() as int, 0)),
+    ensures forall|es: Seq<&Edge>| lists_rfls(v, f, #[trigger] sel_e(f, es, 0)),
+{
+    assert forall|es: Seq<&Edge>| lists_rfls(v, f, #[trigger] sel_e(f, es, 0)) by {
+        lemma_locs_blocks_done_es(f, bs, es, v);
+    }
+}
+
+pub proof fn lemma_locs_blocks_done_es(f: Function, bs: Seq<&Block>, es: Seq<&Edge>, v: Seq<RefFunctionLocation>)
+    requires
+        f.function_wf(), f.control_flow_graph.graph.lists_vertices(bs, |k: usize| true),
+        lists_rfls(v, f, sel_bq(f, bs, bs.len() as int, 0)),
+    ensures lists_rfls(v, f, sel_e(f, es, 0)),
+{
+    let s1 = sel_bq(f, bs, bs.len() as int, 0);
+    let s2 = sel_e(f, es, 0);
+    let g = f.control_flow_graph.graph;
+    assert forall|l: Loc| #![trigger s1(l)] #![trigger s2(l)] s1(l) <==> s2(l) by {
+        if loc_valid(f, l) && loc_block(l) is Some {
+            let b = loc_block(l)->0;
+            assert((|k: usize| true)(b) && g.vertices@.contains_key(b));
+            let m = choose|m: int| 0 <= m < bs.len() && graph::Vertex::index_spec(#[trigger] bs[m]) == b;
+            assert(bs[m].index == b);
+            assert(block_listed(bs, bs.len() as int, b));
+        }
+    }
+    lemma_lists_rfls_ext(v, f, s1, s2);
+}
+
+/// edge phase: pushing Edge(es[m])
+pub proof fn lemma_locs_push_edge(f: Function, es: Seq<&Edge>, m: int, v: Seq<RefFunctionLocation>)
+    requires
+        f.function_wf(), f.control_flow_graph.graph.lists_edges(es, |k: (usize, usize)| true), 0 <= m < es.len(),
+        lists_rfls(v, f, sel_e(f, es, m)),
+    ensures lists_rfls(v.push(RefFunctionLocation::Edge(es[m])), f, sel_e(f, es, m + 1)),
+{
+    let x = RefFunctionLocation::Edge(es[m]);
+    let s1 = sel_e(f, es, m);
+    let s2 = sel_e(f, es, m + 1);
+    let g = f.control_flow_graph.graph;
+    assert(g.edges@.contains_key((graph::Edge::head_spec(es[m]), graph::Edge::tail_spec(es[m]))));
+    assert(edge_of(f, *es[m]));
+    assert forall|l: Loc| #![trigger s1(l)] #![trigger s2(l)] s2(l) <==> (s1(l) || l == loc_of(x)) by {
+        match l {
+            Loc::Edge(h, t) => {
+                if edge_listed(es, m + 1, h, t) {
+                    let j = choose|j: int| 0 <= j < m + 1 && j < es.len() && (#[trigger] es[j]).head == h && es[j].tail == t;
+                    if j < m { assert(edge_listed(es, m, h, t)); }
+                }
+                if edge_listed(es, m, h, t) {
+                    let j = choose|j: int| 0 <= j < m && j < es.len() && (#[trigger] es[j]).head == h && es[j].tail == t;
+                    assert(edge_listed(es, m + 1, h, t));
+                }
+                if l == loc_of(x) { assert(es[m].head == h && es[m].tail == t); assert(edge_listed(es, m + 1, h, t)); }
+            }
+            _ => {}
+        }
+    }
+    assert(!s1(loc_of(x))) by {
+        if edge_listed(es, m, es[m].head, es[m].tail) {
+            let j = choose|j: int| 0 <= j < m && j < es.len() && (#[trigger] es[j]).head == es[m].head && es[j].tail == es[m].tail;
+            assert((graph::Edge::head_spec(es[j]), graph::Edge::tail_spec(es[j])) != (graph::Edge::head_spec(es[m]), graph::Edge::tail_spec(es[m])));
+        }
+    }
+    lemma_lists_rfls_push(v, f, s1, x, s2);
+}
+
+/// end of the edge phase: every location is listed
+pub proof fn lemma_locs_edges_done(f: Function, es: Seq<&Edge>, v: Seq<RefFunctionLocation>)
+    requires
+        f.function_wf(), f.control_flow_graph.graph.lists_edges(es, |k: (usize, usize)| true),
+        lists_rfls(v, f, sel_e(f, es, es.len() as int)),
+    ensures lists_rfls(v, f, sel_all(f)),
+{
+    let s1 = sel_e(f, es, es.len() as int);
+    let s2 = sel_all(f);
+    let g = f.control_flow_graph.graph;
+    assert forall|l: Loc| #![trigger s1(l)] #![trigger s2(l)] s1(l) <==> s2(l) by {
+        match l {
+            Loc::Edge(h, t) => {
+                if loc_valid(f, l) {
+                    let k = (h, t);
+                    assert((|k: (usize, usize)| true)(k) && g.edges@.contains_key(k));
+                    let j = choose|j: int| 0 <= j < es.len() && (graph::Edge::head_spec(#[trigger] es[j]), graph::Edge::tail_spec(es[j])) == k;
+                    assert(es[j].head == h && es[j].tail == t);
+                    assert(edge_listed(es, es.len() as int, h, t));
+                }
+            }
+            _ => {}
+        }
+    }
+    lemma_lists_rfls_ext(v, f, s1, s2);
+}
+
+/// the set form of the enumeration property: the locations listed are exactly all_locs(f)
+pub proof fn lemma_locations_set(f: Function, v: Seq<RefFunctionLocation>)
+    requires lists_rfls(v, f, sel_all(f)),
+    ensures
+        v.map_values(|x: RefFunctionLocation| loc_of(x)).no_duplicates(),
+        ISet::new(|l: Loc| v.map_values(|x: RefFunctionLocation| loc_of(x)).contains(l)) =~= all_locs(f),
+{
+    let w = v.map_values(|x: RefFunctionLocation| loc_of(x));
+    let s = sel_all(f);
+    assert forall|i: int, j: int| 0 <= i < w.len() && 0 <= j < w.len() && i != j implies w[i] != w[j] by {
+        if i < j { assert(loc_of(v[i]) != loc_of(v[j])); } else { assert(loc_of(v[j]) != loc_of(v[i])); }
+    }
+    assert forall|l: Loc| w.contains(l) <==> loc_valid(f, l) by {
+        if w.contains(l) {
+            let i = choose|i: int| 0 <= i < w.len() && w[i] == l;
+            assert(s(loc_of(v[i])));
+        }
+        if loc_valid(f, l) {
+            assert(s(l));
+            let i = choose|i: int| 0 <= i < v.len() && loc_of(#[trigger] v[i]) == l;
+            assert(w[i] == l);
+        }
+    }
+}
+
+impl Function {
+//@ fn lib/il/function.rs :: impl Function :: fn locations loops=3
+//@ rewrite 1 `let mut locations = Vec::new();` => `let mut locations: Vec<RefFunctionLocation<'_>> = Vec::new();` ## R-type-annot: writes down the element type rustc infers for `locations` (the function returns it); needed because the invariants mention `locations` before the first `push`
+//@ rewrite 1 `for block in self.blocks() {` => `let blocks__ = self.blocks(); for block in it: blocks__ {` ## R-bind-temp: binds the temporary `self.blocks()` (evaluated once, before the loop, in both forms) to a local so that ghost code can name its value, and names the ghost iterator; no executable change
+//@ rewrite 1 `for instruction in instructions {` => `for instruction in it1: instructions {` ## R-ghost-iter-name: names the ghost iterator of the for loop so that invariants can mention it; no executable change
+//@ rewrite 1 `for edge in self.edges() {` => `let edges__ = self.edges(); for edge in it2: edges__ {` ## R-bind-temp: binds the temporary `self.edges()` (evaluated once, before the loop, in both forms) to a local so that ghost code can name its value, and names the ghost iterator; no executable change
+//@ spec
+    requires self.function_wf(),
+    ensures /*@list*/ lists_rfls(r@, *self, sel_all(*self)),
+//@ before 0 `for block in it: blocks__`
+    let ghost bs = blocks__@;
+//@ loop 0
+    invariant
+        self.function_wf(), it.seq() == bs,
+        self.control_flow_graph.graph.lists_vertices(bs, |k: usize| true),
+        lists_rfls(locations@, *self, sel_bq(*self, bs, it.index@, 0)),
+//@ before 0 `let instructions = block.instructions();`
+    let ghost n = it.index@;
+    proof { assert(block == bs[n]); }
+//@ before 0 `locations.push(RefFunctionLocation::EmptyBlock(block));`
+    proof { lemma_locs_empty_block(*self, bs, n, locations@); }
+//@ loop 1
+    invariant
+        self.function_wf(), 0 <= n < bs.len(), block == bs[n], bs == it.seq(), n == it.index@,
+        self.control_flow_graph.graph.lists_vertices(bs, |k: usize| true),
+        *instructions == block.instructions, block.instructions@.len() > 0,
+        it1.seq().len() == block.instructions@.len(),
+        forall|j: int| 0 <= j < it1.seq().len() ==> *#[trigger] it1.seq()[j] == block.instructions@[j],
+        lists_rfls(locations@, *self, sel_bq(*self, bs, n, it1.index@)),
+//@ before 0 `locations.push(RefFunctionLocation::Instruction(block, instruction));`
+    proof { lemma_locs_push_instr(*self, bs, n, it1.index@, locations@, instruction); }
+//@ after 0 `locations.push(RefFunctionLocation::Instruction(block, instruction)); }`
+    proof { lemma_locs_block_done(*self, bs, n, locations@); }
+//@ before 0 `let edges__ = self.edges();`
+    proof { lemma_locs_blocks_done(*self, bs, locations@); }
+//@ before 0 `for edge in it2: edges__`
+    let ghost es = edges__@;
+//@ loop 2
+    invariant
+        self.function_wf(), it2.seq() == es,
+        self.control_flow_graph.graph.lists_edges(es, |k: (usize, usize)| true),
+        lists_rfls(locations@, *self, sel_e(*self, es, it2.index@)),
+//@ before 0 `locations.push(RefFunctionLocation::Edge(edge))`
+    proof { lemma_locs_push_edge(*self, es, it2.index@, locations@); }
+//@ before 0 `locations }`
+    proof { lemma_locs_edges_done(*self, es, locations@); }
+//@ end
+}
+
+// ---------------------------------------------------------------------------------------------
+// RefProgramLocation::from_address
+
+/// no instruction of block `b` has address `a`
+pub open spec fn block_no_addr(b: Block, a: u64) -> bool {
+    forall|q: int| 0 <= q < b.instructions@.len() ==> (#[trigger] b.instructions@[q]).address != Some(a)
+}
+
+/// no instruction of function `f` has address `a`
+pub open spec fn fn_no_addr(f: Function, a: u64) -> bool {
+    forall|b: usize| #![trigger f.control_flow_graph.graph.vertices@[b]] f.control_flow_graph.has_block(b) ==> block_no_addr(f.control_flow_graph.blocks_view()[b], a)
+}
+
+/// no instruction of program `p` has address `a`
+pub open spec fn program_no_addr(p: Program, a: u64) -> bool {
+    forall|k: usize| #![trigger p.functions@[k]] p.functions@.contains_key(k) ==> fn_no_addr(*p.functions@[k], a)
+}
+
+/// `x` is an instruction location whose instruction has address `a`
+pub open spec fn rfl_has_addr(x: RefFunctionLocation, a: u64) -> bool {
+    match x {
+        RefFunctionLocation::Instruction(_, ins) => ins.address == Some(a),
+        _ => false,
+    }
+}
+
+pub proof fn lemma_fn_no_addr(f: Function, bs: Seq<&Block>, a: u64)
+    requires
+        f.control_flow_graph.graph.lists_vertices(bs, |k: usize| true),
+        forall|j: int| 0 <= j < bs.len() ==> block_no_addr(*#[trigger] bs[j], a),
+    ensures fn_no_addr(f, a),
+{
+    let g = f.control_flow_graph.graph;
+    assert forall|b: usize| #![trigger g.vertices@[b]] f.control_flow_graph.has_block(b) implies block_no_addr(g.vertices@[b], a) by {
+        assert((|k: usize| true)(b) && g.vertices@.contains_key(b));
+        let m = choose|m: int| 0 <= m < bs.len() && graph::Vertex::index_spec(#[trigger] bs[m]) == b;
+        assert(*bs[m] == g.vertices@[b]);
+    }
+}
+
+pub proof fn lemma_program_no_addr(p: Program, fs: Seq<&Function>, a: u64)
+    requires
+        p.lists_functions(fs),
+        forall|i: int| 0 <= i < fs.len() ==> fn_no_addr(*#[trigger] fs[i], a),
+    ensures program_no_addr(p, a),
+{
+    assert forall|k: usize| #![trigger p.functions@[k]] p.functions@.contains_key(k) implies fn_no_addr(*p.functions@[k], a) by {
+        let i = choose|i: int| 0 <= i < fs.len() && *#[trigger] fs[i] == *p.functions@[k];
+        assert(fn_no_addr(*fs[i], a));
+    }
+}
+
+/// a function held by a well-formed program is well formed
+pub proof fn lemma_held_function_wf(p: Program, f: Function)
+    requires p.program_wf(), p.holds_function(f),
+    ensures f.function_wf(),
+{
+    reveal(Program::holds_function);
+    let k = choose|k: usize| #![trigger p.functions@.contains_key(k)] p.functions@.contains_key(k) && *p.functions@[k] == f;
+    assert((*p.functions@[k]).function_wf());
+}
+
+/// the instruction at position q of listed block bs[n] gives a well-formed location of f
+pub proof fn lemma_instr_rpl_wf(f: &Function, bs: Seq<&Block>, n: int, q: int, ins: &Instruction)
+    requires
+        f.function_wf(), f.control_flow_graph.graph.lists_vertices(bs, |k: usize| true), 0 <= n < bs.len(),
+        0 <= q < bs[n].instructions@.len(), *ins == bs[n].instructions@[q],
+    ensures rpl_at(f, RefFunctionLocation::Instruction(bs[n], ins)).rpl_wf(),
+{
+    lemma_block_not_listed(*f, bs, n);
+    assert(bs[n].instructions@[q] == *ins);
+    assert(block_holds(*bs[n], *ins));
+}
+
+impl<'p> RefProgramLocation<'p> {
+//@ fn lib/il/location.rs :: impl<'p> RefProgramLocation<'p> :: fn from_address loops=6
+//@ rewrite 1 `let mut function = None;` => `let mut function: Option<&'p Function> = None;` ## R-type-annot: writes down the type rustc infers for `function` (it is later passed to RefProgramLocation::new as `&'p Function`); needed because the invariant mentions it before the first assignment
+//@ rewrite 1 `for f in program.functions() {` => `for f in it0: program.functions() {` ## R-ghost-iter-name: names the ghost iterator of the for loop so that invariants can mention it; no executable change
+//@ rewrite 1 `for function in program.functions() {` => `let fns__ = program.functions(); for function in it_f: fns__ {` ## R-bind-temp: binds the temporary `program.functions()` (evaluated once, before the loop, in both forms) to a local so that ghost code can name its value, and names the ghost iterator; no executable change
+//@ rewrite 2 `for block in function.blocks() {` => `let blocks__ = function.blocks(); for block in it_b: blocks__ {` ## R-bind-temp: binds the temporary `function.blocks()` (evaluated once, before the loop, in both forms) to a local so that ghost code can name its value, and names the ghost iterator; no executable change
+//@ rewrite 2 `for instruction in block.instructions() {` => `for instruction in it_i: block.instructions() {` ## R-ghost-iter-name: names the ghost iterator of the for loop so that invariants can mention it; no executable change
+//@ rewrite 1 `{ continue; } if function.is_none() {` => `{ } else if function.is_none() {` ## R-continue: `if C { continue; } REST` at the end of a loop body is by definition `if C { } else { REST }` (Verus: "for-loops do not yet support continue"); part 1 of 3, first pass (closest-function heuristic) only
+//@ rewrite 1 `continue; } let ff` => `} else { let ff` ## R-continue: part 2 of 3 (`if D { S; continue; } REST2` = `if D { S; } else { REST2 }`)
+//@ rewrite 1 `ff.address() { function = Some(f); }` => `ff.address() { function = Some(f); } }` ## R-continue: part 3 of 3 (closes the `else` block opened in part 2 at the end of the loop body)
+//@ closure 0 |a: u64| -> (r0: bool)
+    ensures r0 == (a == address),
+//@ spec
+    requires program.program_wf(),
+    ensures
+        /*@found*/ r matches Some(x) ==> program.holds_function(*x.function) && x.rpl_wf() && rfl_has_addr(x.function_location, address),
+        /*@missing*/ r is None ==> program_no_addr(*program, address),
+//@ loop 0
+    invariant
+        program.lists_functions(it0.seq()),
+        function matches Some(g) ==> program.holds_function(*g),
+//@ before 0 `let blocks__ = function.blocks();`
+    proof { lemma_held_function_wf(*program, *function); }
+//@ before 0 `for block in it_b: blocks__`
+    let ghost bs = blocks__@;
+//@ loop 1
+    invariant
+        program.holds_function(*function), function.function_wf(), it_b.seq() == bs,
+        function.control_flow_graph.graph.lists_vertices(bs, |k: usize| true),
+//@ loop 2
+    invariant
+        program.holds_function(*function), function.function_wf(), it_b.seq() == bs, 0 <= it_b.index@ < bs.len(), block == bs[it_b.index@],
+        function.control_flow_graph.graph.lists_vertices(bs, |k: usize| true),
+        it_i.seq().len() == block.instructions@.len(),
+        forall|j: int| 0 <= j < it_i.seq().len() ==> *#[trigger] it_i.seq()[j] == block.instructions@[j],
+//@ before 0 `return Some(RefProgramLocation::new(`
+    proof { lemma_instr_rpl_wf(function, bs, it_b.index@, it_i.index@, instruction); }
+//@ before 0 `for function in it_f: fns__`
+    let ghost fs = fns__@;
+//@ loop 3
+    invariant
+        program.program_wf(), it_f.seq() == fs, program.lists_functions(fs),
+        forall|i: int| 0 <= i < it_f.index@ ==> fn_no_addr(*#[trigger] fs[i], address),
+//@ before 1 `let blocks__ = function.blocks();`
+    proof { lemma_held_function_wf(*program, *function); }
+//@ before 1 `for block in it_b: blocks__`
+    let ghost bs = blocks__@;
+//@ loop 4
+    invariant
+        program.holds_function(*function), function.function_wf(), it_b.seq() == bs,
+        function.control_flow_graph.graph.lists_vertices(bs, |k: usize| true),
+        forall|j: int| 0 <= j < it_b.index@ ==> block_no_addr(*#[trigger] bs[j], address),
+//@ loop 5
+    invariant
+        program.holds_function(*function), function.function_wf(), it_b.seq() == bs, 0 <= it_b.index@ < bs.len(), block == bs[it_b.index@],
+        function.control_flow_graph.graph.lists_vertices(bs, |k: usize| true),
+        it_i.seq().len() == block.instructions@.len(),
+        forall|j: int| 0 <= j < it_i.seq().len() ==> *#[trigger] it_i.seq()[j] == block.instructions@[j],
+        forall|q: int| 0 <= q < it_i.index@ ==> (#[trigger] block.instructions@[q]).address != Some(address),
+//@ before 1 `return Some(RefProgramLocation::new(`
+    proof { lemma_instr_rpl_wf(function, bs, it_b.index@, it_i.index@, instruction); }
+//@ after 1 `)); } } } }`
+    proof { lemma_fn_no_addr(*function, bs, address); }
+//@ before 0 `None }`
+    proof { lemma_program_no_addr(*program, fs, address); }
+//@ end
+}
+
+impl<'p> RefProgramLocation<'p> {
+//@ fn lib/il/location.rs :: impl<'p> RefProgramLocation<'p> :: fn migrate
+//@ closure 0 || -> (e0: Error)
+    requires self.function.index is Some,
+    ensures e0 is FalconInternal,
+//@ closure 1 || -> (e1: Error)
+    requires self.function.index is Some,
+    ensures e1 is FalconInternal,
+//@ spec
+    requires self.function.index is Some,
+    ensures
+        /*@nofn*/ !program.functions@.contains_key(self.function.index->0) ==> (r matches Err(e) && e is FalconInternal),
+        /*@ok*/ program.functions@.contains_key(self.function.index->0)
+            && fl_applies(*program.functions@[self.function.index->0], loc_fl(self.loc())) ==> r is Ok,
+        /*@err*/ program.functions@.contains_key(self.function.index->0)
+            && !fl_applies(*program.functions@[self.function.index->0], loc_fl(self.loc())) ==> r is Err,
+        /*@fn*/ r matches Ok(x) ==> program.functions@.contains_key(self.function.index->0) && *x.function == *program.functions@[self.function.index->0],
+        /*@loc*/ r matches Ok(x) ==> ((*x.function).function_wf() ==> x.loc() == self.loc() && rfl_points_in(*x.function, x.function_location)),
+        /*@same*/ program.program_wf() && program.holds_function(*self.function) && rfl_in(*self.function, self.function_location)
+            ==> r == Ok::<RefProgramLocation<'m>, Error>(*self),
+//@ enter
+    broadcast use {vstd::std_specs::fmt::axiom_fmt_req_all_display, vstd::std_specs::fmt::axiom_fmt_req_all_usize};
+    reveal(Program::holds_function);
+//@ end
+}
